@@ -184,6 +184,7 @@ def lemma_step(su):
     snap0 = progress_snapshot(st) if surj else None
     dirty0 = dirty_exact_goals(I, su, sch, m, st, "step") if surj else []
     nodefs0 = no_pending_defs(d)
+    enum0 = M.conj(inv_enum(su, st))
 
     def cond(I_, g, args):
         b = ctx.fresh_bool("cond")
@@ -221,6 +222,7 @@ def lemma_step(su):
         c06 = dirty0 + progress_goals(st, snap0, cont, "step")
         c06.append(("step.noalloc: no definition is pending after an iteration", c.implies(cont, no_pending_defs(d))))
         goals += [(lab, c.implies(nodefs0, l)) for lab, l in c06]
+    goals += enum_goals(su, st, enum0, "step: ")
     cover = [("continue", cont), ("exit", ex), ("early", early)]
     return ctx, Goal("step", ctx.assumes + [M.conj(pre), -bound], goals, cover)
 
@@ -280,6 +282,7 @@ def lemma_prologue(su):
     at_cond = []
     surj = not has_defs(su.rules)
     snap0 = progress_snapshot(st) if surj else None
+    enum0 = M.conj(inv_enum(su, st))
 
     def cond(I_, g, args):
         at_cond.append((g, M.inv_unionfind(st) + M.inv_struct(st, canon=True) + M.inv_no_uprooted(st)))
@@ -295,6 +298,7 @@ def lemma_prologue(su):
     goals += [("prologue.compaction-bound: " + msg, -g) for msg, g in compact]
     if surj:
         goals += progress_goals(st, snap0, None, "prologue")
+    goals += enum_goals(su, st, enum0, "prologue: ")
     if len(at_cond) != 1:
         raise Unsupported("close_until prologue evaluates the condition %d times" % len(at_cond))
     cover = [("some element was uprooted", -M.conj(M.inv_no_uprooted(M.State(sch, m))) if False else T)]
@@ -345,6 +349,7 @@ def lemma_api(su, name):
     m = M.arbitrary_state(I, sch)
     st = M.State(sch, m)
     pre = [M.conj(inv_api(st, su.rules))]
+    enum0 = M.conj(inv_enum(su, st))
     item = su.prog.methods[(sch.model, name)]
     args = []
     for i, inp in enumerate(item["sig"]["inputs"][1:]):
@@ -352,6 +357,7 @@ def lemma_api(su, name):
     r = I.call_fn(item, T, args, self_val=m)
     panic, bound, compact = events_split(ctx)
     goals = [("api.%s: %s" % (name, lab), l) for lab, l in inv_api(st, su.rules)]
+    goals += enum_goals(su, st, enum0, "api.%s: " % name)
     goals += [("api.%s.no-panic: %s" % (name, msg), -g) for msg, g in panic]
     goals += [("api.%s.compaction-bound: %s" % (name, msg), -g) for msg, g in compact]
     return ctx, Goal("api." + name, ctx.assumes + pre + [-bound], goals, [])
@@ -362,6 +368,7 @@ def lemma_new(su):
     m = I.call_fn(su.prog.methods[(sch.model, "new")], T, [])
     st = M.State(sch, m)
     goals = [("new: " + lab, l) for lab, l in inv_api(st, su.rules)]
+    goals += enum_goals(su, st, T, "new: ")
     panic, bound, compact = events_split(ctx)
     goals += [("new.no-panic: " + msg, -g) for msg, g in panic]
     return ctx, Goal("new", ctx.assumes + [-bound], goals, [])
@@ -374,6 +381,8 @@ def all_lemmas(su):
         out.append(("api." + name, (lambda n: (lambda: lemma_api(su, n)))(name)))
         out.append(("effects." + name, (lambda n: (lambda: lemma_api_effects(su, n)))(name)))
     out.append(("queries", lambda: lemma_queries(su)))
+    if enum_types(su, sch):
+        out.append(("enum", lambda: lemma_enum(su)))
     out.append(("uf", lambda: lemma_uf(su)))
     return out
 
@@ -558,6 +567,136 @@ def lemma_queries(su):
     panic, bound, compact = events_split(ctx)
     goals += [("queries.no-panic: " + msg, -g) for msg, g in panic]
     return ctx, Goal("queries", ctx.assumes + pre + [-bound], goals, [])
+
+
+# ---------------------------------------------------------------------------------------------
+# C15: enum types
+def enum_types(su, sch):
+    """{type snake name: (Rust enum name, [(variant name, constructor relation)])} for every `<T>Case` enum of the module"""
+    out = {}
+    for en, variants in su.prog.enums.items():
+        if not en.endswith("Case"):
+            continue
+        t = M.snake(en[:-4])
+        if t not in sch.types:
+            continue
+        ctors = []
+        for v in variants:
+            rn = M.snake(v["name"])
+            if rn not in sch.rels:
+                raise Unsupported("enum variant %s::%s has no constructor relation" % (en, v["name"]))
+            ctors.append((v["name"], sch.rels[rn]))
+        out[t] = (en, ctors)
+    return out
+
+
+def inv_enum(su, st):
+    """INV-enum: every allocated element of an enum type is, modulo the current equalities, the value of a constructor row"""
+    c = V.CTX.c
+    U = V.CTX.U
+    out = []
+    for t, (en, ctors) in sorted(enum_types(su, st.s).items()):
+        roots = [st.root_of(t, i, U) for i in range(U)]
+        for i in range(U):
+            hit = F
+            for vn, R in ctors:
+                for row in M.rows_of(R, U):
+                    h = st.rel_holds(R.name, row)
+                    if h == F:
+                        continue
+                    hit = c.or2(hit, c.and2(h, V.int_eq(roots[row[-1]], roots[i])))
+            out.append(("enum.%s[%d] is the value of a constructor" % (t, i), c.implies(st.in_range(t, i), hit)))
+    return out
+
+
+def enum_goals(su, st, pre_lit, label):
+    c = V.CTX.c
+    return [("%s%s" % (label, lab), c.implies(pre_lit, l)) for lab, l in inv_enum(su, st)]
+
+
+def ctor_row_matches(st, R, payload, value_root, U):
+    """literal: some row of constructor graph R has arguments equal (modulo roots) to `payload` and value with root `value_root`"""
+    c = V.CTX.c
+    out = F
+    pr = [st.root_of(t, a, U) for t, a in zip(R.types[:-1], payload)]
+    for row in M.rows_of(R, U):
+        h = st.rel_holds(R.name, row)
+        if h == F:
+            continue
+        same = c.andl([V.int_eq(st.root_of(t, x, U), p) for t, x, p in zip(R.types[:-1], row[:-1], pr)])
+        out = c.or2(out, c.and_(h, same, V.int_eq(st.root_of(R.types[-1], row[-1], U), value_root)))
+    return out
+
+
+def lemma_enum(su, given=None):
+    """C15 on the real query functions: under INV-enum on a canonical (closed) state <enum>_case(el) does not panic and returns a
+    constructor and arguments whose application equals el, every item of <enum>_cases(el) does, and new_<enum>(c) followed by
+    <enum>_cases contains c up to equality"""
+    if given is None:
+        ctx, I, sch = su.fresh()
+        m = M.arbitrary_state(I, sch)
+        st = M.State(sch, m)
+        pre = [M.conj(inv_api(st, su.rules)), canonical_pre(st), M.conj(inv_enum(su, st))]
+    else:
+        ctx, I, sch, m = given[:4]
+        st = M.State(sch, m)
+        pre = []
+    c = ctx.c
+    U = ctx.U
+    goals = []
+    info = {}
+    for t, (en, ctors) in sorted(enum_types(su, sch).items()):
+        byname = dict(ctors)
+        x = ctx.fresh_int("enum.%s.x" % t, 0, U - 1)
+        pre.append(st.in_range(t, x))
+        rx = st.root_of(t, x, U)
+        ev0 = len(ctx.events)
+        r = call_query(I, su, sch, m, t + "_case", [x])
+        panic = [(msg, g) for g, k, msg in ctx.events[ev0:] if k == "panic"]
+        goals += [("enumq.%s_case: no panic: %s" % (t, msg), -g) for msg, g in panic]
+        if not isinstance(r, V.EnumV):
+            raise Unsupported("%s_case does not return an enum value" % t)
+        for vn, (g, payload) in r.alts.items():
+            goals.append(("enumq.%s_case: the returned %s(..) applied to its arguments equals the element" % (t, vn),
+                          c.implies(g, ctor_row_matches(st, byname[vn], payload, rx, U))))
+        goals.append(("enumq.%s_case: returns some constructor" % t, c.orl([g for g, _ in r.alts.values()])))
+        it = I.to_iter(call_query(I, su, sch, m, t + "_cases", [x]), T)
+        for gi, item in it.items:
+            item = I.deref(item)
+            for vn, (g, payload) in item.alts.items():
+                goals.append(("enumq.%s_cases: every yielded %s(..) applied to its arguments equals the element" % (t, vn),
+                              c.implies(c.and2(gi, g), ctor_row_matches(st, byname[vn], payload, rx, U))))
+        goals.append(("enumq.%s_cases: yields at least one case" % t, c.orl([gi for gi, _ in it.items])))
+        info[t] = {"x": x}
+    # new_<enum>(case) followed by <enum>_cases
+    for t, (en, ctors) in sorted(enum_types(su, sch).items()):
+        item = su.prog.methods.get((sch.model, "new_" + t))
+        if item is None or len(item["sig"]["inputs"]) != 2:
+            raise Unsupported("no new_%s(case) function" % t)
+        case = symbolic_arg(ctx, sch, su, st, item["sig"]["inputs"][1]["ty"], "enum.%s.case" % t, pre)
+        len0 = st.nelems(t)
+        ev0 = len(ctx.events)
+        ret = I.deref(I.call_fn(item, T, [case], self_val=m))
+        panic = [(msg, g) for g, k, msg in ctx.events[ev0:] if k == "panic"]
+        goals += [("enumq.new_%s: no panic: %s" % (t, msg), -g) for msg, g in panic]
+        it = I.to_iter(call_query(I, su, sch, m, t + "_cases", [ret]), T)
+        found = F
+        for gi, itx in it.items:
+            itx = I.deref(itx)
+            for vn, (g, payload) in itx.alts.items():
+                g0, p0 = case.alts[vn]
+                R = dict(ctors)[vn]
+                same = c.andl([V.int_eq(st.root_of(ty, a, U + 1), st.root_of(ty, b, U + 1)) for ty, a, b in zip(R.types[:-1], payload, p0)])
+                found = c.or2(found, c.and_(gi, g, g0, same))
+        goals.append(("enumq.new_%s: %s_cases of the result contains the case" % (t, t), found))
+        goals.append(("enumq.new_%s: allocates at most one element" % t, -V.int_lt(V.int_bin(lambda a, b: a + b, len0, 1), st.nelems(t))))
+        goals += enum_goals(su, st, T, "enumq.new_%s: " % t)
+        info[t]["case"] = case
+        info[t]["ret"] = ret
+    panic, bound, compact = events_split(ctx)
+    g = Goal("enum", ctx.assumes + pre + [-bound], goals, [])
+    g.info = info
+    return ctx, g
 
 
 def lemma_uf(su):
